@@ -21,7 +21,13 @@ func malformOrigin(t *rapid.T, o string) Val {
 		host, port = rest[:i], rest[i+1:]
 	}
 	withPort := func(p string) string { return sch + "://" + host + ":" + p }
-	switch uniform(t, "malform", 42) {
+	switch uniform(t, "malform", 45) {
+	case 42, 43, 44:
+		// one ASCII letter replaced by a non-ASCII letter that Unicode case mapping/folding sends back to it
+		if u, ok := unifold(t, o); ok {
+			return V(u)
+		}
+		return V(strings.ToUpper(o))
 	case 0:
 		return V(strings.ToUpper(o))
 	case 1:
@@ -131,6 +137,35 @@ type reqPools struct {
 	names   []string // lower-case listed header names
 }
 
+// unifold replaces one k/K, i/I or s/S of s by the Kelvin sign, the dotted
+// capital I / dotless i, or the long s: letters outside ASCII that
+// strings.ToLower, ToUpper or EqualFold map onto the ASCII letter.
+func unifold(t *rapid.T, s string) (string, bool) {
+	var pos []int
+	for i := 0; i < len(s); i++ {
+		switch s[i] {
+		case 'k', 'K', 'i', 'I', 's', 'S':
+			pos = append(pos, i)
+		}
+	}
+	if len(pos) == 0 {
+		return s, false
+	}
+	i := pos[uniform(t, "foldpos", len(pos))]
+	var r string
+	switch s[i] {
+	case 'k', 'K':
+		r = "\u212a"
+	case 'i':
+		r = pick(t, "foldi", []string{"\u0130", "\u0131"})
+	case 'I':
+		r = "\u0130"
+	default:
+		r = "\u017f"
+	}
+	return s[:i] + r + s[i+1:], true
+}
+
 func poolsOf(c Cfg) reqPools {
 	a, n := originPools(c)
 	if len(a) == 0 {
@@ -179,6 +214,8 @@ func genACRMVal(t *rapid.T, p reqPools) Val {
 		m := pick(t, "listed", p.methods)
 		if chance(t, "acrmcase", 20) {
 			m = lower(m)
+		} else if chance(t, "acrmfold", 8) {
+			m, _ = unifold(t, m)
 		}
 		return V(m)
 	case k < 75:
@@ -212,7 +249,8 @@ func genACRHLine(t *rapid.T, p reqPools) Val {
 		return V(pick(t, "acrhfix", []string{"authorization", "x-unlisted", "x-foo", "content-type", "x-foo,x-unlisted", "*", "", ",", " ", "Authorization", "X-FOO"}))
 	case k < 60 && len(p.names) > 0:
 		n := pick(t, "nm", p.names)
-		return V(pick(t, "mut", []string{n + "x", n[:len(n)-1], strings.ToUpper(n), " " + n, n + " ", "  " + n, n + ",", "," + n, n + "\x00"}))
+		folded, _ := unifold(t, n)
+		return V(pick(t, "mut", []string{n + "x", n[:len(n)-1], strings.ToUpper(n), " " + n, n + " ", "  " + n, n + ",", "," + n, n + "\x00", folded}))
 	case k < 70:
 		cnt := pick(t, "empties", []int{1, 15, 16, 17, 18, 40})
 		tail := ""
